@@ -117,7 +117,7 @@ REGISTRY = {
         "assumptions": COMMON_ASSUMPTIONS,
     },
     "C17": {
-        "rules": [linalg.rule_backend_use_or_reject, linalg.rule_dense_table, linalg.rule_perm_provenance],
+        "rules": [exponent.rule_linop_dtype, linalg.rule_backend_use_or_reject, linalg.rule_dense_table, linalg.rule_perm_provenance],
         "explanation": (
             "static (registry evaluation + use-or-reject): decides that every registered eigen / singular-value backend accepts "
             "every setting its dispatcher builds and reads each selection-bearing option it accepts, that the dispatcher builds "
@@ -149,7 +149,7 @@ REGISTRY = {
         "assumptions": COMMON_ASSUMPTIONS,
     },
     "C10": {
-        "rules": [
+        "rules": [exponent.rule_linop_dtype, 
             dmrg.rule_lockstep, dmrg.rule_mirror_blocks, registries.rule_dense_linop_agree,
             P(dmrg.rule_sweep_memory, sites=[("quimb.tensor.tn1d.dmrg", "DMRG.solve", ("sweep",), "canonize")]),
             P(optflow.rule_option_delivery, opts=("bra",), modules=("quimb.tensor.tn1d.core", "quimb.tensor.tensor_core", "quimb.tensor.tn2d.core"),
@@ -283,7 +283,7 @@ REGISTRY = {
         "assumptions": COMMON_ASSUMPTIONS,
     },
     "C01": {
-        "rules": [exponent.rule_partial_contraction_inds, exponent.rule_exp_drop, exponent.rule_exp_flow, exponent.rule_exp_combine, exponent.rule_linop,
+        "rules": [exponent.rule_partial_contraction_inds, exponent.rule_linop_dtype, exponent.rule_exp_drop, exponent.rule_exp_flow, exponent.rule_exp_combine, exponent.rule_linop,
                   exponent.rule_carrier_derivation, exponent.rule_hyper_count],
         "explanation": (
             "static (AST def-use flag closure): decides exponent accounting — every evaluator that turns tensors "
